@@ -1130,5 +1130,154 @@ theorem scan_prev_tail (d : Db K V) (hok : NodesOk d.nodes) (fuel : Nat) (hf : (
       · simp
       · simp only [List.length_append, List.length_cons, List.length_nil] at hf ⊢; omega
 
+/-! ### cursors: seek -/
+
+/-- what a failed seek leaves: the same slot, `skip_next` cleared -/
+def clearSkip : CPos → CPos
+  | .at i j _ => .at i j 0
+  | q => q
+
+theorem findPos_le_length (k : K) (l : List (K × V)) : findPos gt k l ≤ l.length := by
+  induction l with
+  | nil => simp [findPos]
+  | cons x tl ih =>
+    obtain ⟨a, av⟩ := x
+    simp only [findPos, List.length_cons]
+    split <;> omega
+
+theorem exists_split_of_getElem? {α : Type} {l : List α} {i : Nat} {x : α} (h : l[i]? = some x) :
+    ∃ pre post, l = pre ++ x :: post ∧ pre.length = i := by
+  refine ⟨l.take i, l.drop (i + 1), split_of_getElem? h, ?_⟩
+  have := (List.getElem?_eq_some_iff.1 h).1
+  rw [List.length_take]; omega
+
+theorem set_mid {α : Type} {pre post : List α} {x y : α} {r : Nat} (h : pre.length = r) :
+    (pre ++ x :: post).set r y = pre ++ y :: post := by
+  subst h; simp
+
+/-- seek: either the key routes nowhere / is absent (everything splits into above and below), or the
+    seek lands on a record `x` that is not below `k` with only smaller records after it -/
+theorem curSeek_core (st : StrictTotal gt) (d : Db K V) (inv : NodeInv gt d.nodes) (k : K) (ge : Bool) (p : CPos) :
+    (curSeek gt d k ge p = (clearSkip p, false) ∧
+      ((AllLt gt k (flatten d.nodes)) ∨
+       (ge = false ∧ ∃ l1 l2, flatten d.nodes = l1 ++ l2 ∧ AllGt gt k l1 ∧ AllLt gt k l2))) ∨
+    (∃ i j l1 x l2, curSeek gt d k ge p = (.at i j 0, true) ∧ curRec d (.at i j 0) = some x ∧
+      flatten d.nodes = l1 ++ x :: l2 ∧ AllGt gt k l1 ∧ AllLt gt k l2 ∧
+      (x.1 = k ∨ (ge = true ∧ gt x.1 k = true))) := by
+  cases hr : routeIdx gt k d.nodes with
+  | zero =>
+    left
+    refine ⟨?_, Or.inl (routeIdx_zero st inv hr)⟩
+    simp only [curSeek, hr, if_true]
+    cases p <;> rfl
+  | succ r =>
+    obtain ⟨pre, lower, post, e, hl, hg, hc⟩ := lower_split st inv hr
+    have hn : d.nodes[r]? = some lower := by rw [e]; exact getElem?_mid hl
+    have hf := flatten_split pre post lower (findPos gt k lower.recs)
+    rw [← e] at hf
+    rcases hc with ⟨h2, hp, h1⟩ | ⟨av, rest, h2, h3, hp⟩
+    · cases ge with
+      | false =>
+        left
+        refine ⟨?_, Or.inr ⟨rfl, _, _, hf, hg, h2⟩⟩
+        simp only [curSeek, hr, Nat.add_one_ne_zero, if_false, Nat.add_sub_cancel, hn, hp,
+          Bool.false_eq_true, Bool.not_false, if_true]
+        cases p <;> rfl
+      | true =>
+        right
+        have hle := findPos_le_length (gt := gt) k lower.recs
+        generalize findPos gt k lower.recs = i at *
+        have hi : i - 1 < lower.recs.length := by omega
+        obtain ⟨x, hx⟩ : ∃ x, lower.recs[i - 1]? = some x := ⟨_, List.getElem?_eq_getElem hi⟩
+        have htk : lower.recs.take i = lower.recs.take (i - 1) ++ [x] := by
+          have := take_succ_of_getElem? hx
+          rwa [Nat.sub_add_cancel h1] at this
+        refine ⟨r, i - 1, flatten pre ++ lower.recs.take (i - 1), x, lower.recs.drop i ++ flatten post,
+          ?_, ?_, ?_, ?_, h2, Or.inr ⟨rfl, ?_⟩⟩
+        · have hne : ¬ i = 0 := by omega
+          simp only [curSeek, hr, Nat.add_one_ne_zero, if_false, Nat.add_sub_cancel, hn, hp, hne,
+            Bool.false_eq_true, Bool.not_true]
+        · simp [curRec, hn, hx]
+        · rw [hf, htk]; simp only [List.append_assoc, List.cons_append, List.nil_append]
+        · rw [htk, ← List.append_assoc, allGt_append] at hg; exact hg.1
+        · rw [htk, ← List.append_assoc, allGt_append] at hg
+          exact hg.2 x (List.mem_cons_self ..)
+    · right
+      refine ⟨r, findPos gt k lower.recs, flatten pre ++ lower.recs.take (findPos gt k lower.recs), (k, av),
+        rest ++ flatten post, ?_, ?_, ?_, hg, h3, Or.inl rfl⟩
+      · simp only [curSeek, hr, Nat.add_one_ne_zero, if_false, Nat.add_sub_cancel, hn, hp, if_true]
+      · simp [curRec, hn, (getElem?_of_drop h2).1]
+      · rw [hf, h2]; simp only [List.append_assoc, List.cons_append]
+
+/-! ### cursors: writes through a position -/
+
+/-- a record under a cursor, with the chain and the node split around it -/
+theorem curRec_split {d : Db K V} {p : CPos} {x : K × V} (h : curRec d p = some x) :
+    ∃ i j s pre lower post t u, p = .at i j s ∧ d.nodes = pre ++ lower :: post ∧ pre.length = i ∧
+      lower.recs = t ++ x :: u ∧ t.length = j := by
+  cases p with
+  | head => simp [curRec] at h
+  | tail => simp [curRec] at h
+  | void => simp [curRec] at h
+  | «at» i j s =>
+    simp only [curRec] at h
+    cases hn : d.nodes[i]? with
+    | none => simp [hn] at h
+    | some lower =>
+      rw [hn] at h
+      simp only [Option.bind_some] at h
+      obtain ⟨pre, post, e, hl⟩ := exists_split_of_getElem? hn
+      obtain ⟨t, u, e2, hl2⟩ := exists_split_of_getElem? h
+      exact ⟨i, j, s, pre, lower, post, t, u, rfl, e, hl, e2, hl2⟩
+
+theorem curSet_core (st : StrictTotal gt) (d : Db K V) (inv : NodeInv gt d.nodes) (p : CPos) (v : V)
+    {k : K} {ov : V} (h : curRec d p = some (k, ov)) :
+    flatten (curSet d p v).nodes = specPut gt (flatten d.nodes) k v ∧ NodesOk (curSet d p v).nodes := by
+  obtain ⟨i, j, s, pre, lower, post, t, u, rfl, e, hl, e2, hl2⟩ := curRec_split h
+  obtain ⟨nodes, curs⟩ := d
+  simp only at inv e h ⊢
+  subst e
+  have hok := inv.1
+  rw [nodesOk_append, nodesOk_cons] at hok
+  have hf : flatten (pre ++ lower :: post) = (flatten pre ++ t) ++ (k, ov) :: (u ++ flatten post) := by
+    rw [flatten_append, flatten_cons, e2]; simp only [List.append_assoc, List.cons_append]
+  have hd := inv.2
+  rw [hf] at hd
+  rw [hf, specPut_present st v ov _ (desc_mid hd).1]
+  have hr : lower.recs[j]? = some (k, ov) := by rw [e2]; exact getElem?_mid hl2
+  simp only [curSet, getElem?_mid hl, hr, set_mid hl]
+  rw [e2, set_mid hl2]
+  simp only [flatten_append, flatten_cons, List.append_assoc, List.cons_append, true_and]
+  rw [nodesOk_append, nodesOk_cons]
+  refine ⟨hok.1, ⟨by simp, ?_⟩, hok.2.2⟩
+  have := hok.2.1.2
+  rw [e2] at this
+  simpa using this
+
+theorem curDel_core (st : StrictTotal gt) (d : Db K V) (inv : NodeInv gt d.nodes) (p : CPos)
+    {k : K} {ov : V} (h : curRec d p = some (k, ov)) :
+    flatten (curDel d p).nodes = specDel gt (flatten d.nodes) k ∧ NodesOk (curDel d p).nodes := by
+  obtain ⟨i, j, s, pre, lower, post, t, u, rfl, e, hl, e2, hl2⟩ := curRec_split h
+  have : curDel d (.at i j s) = delAt d i j := by simp [curDel, h]
+  rw [this]
+  exact delAt_core st d inv e hl e2 hl2
+
 end
+
+/-! ### a concrete instance (used by the non-vacuity examples of the property files) -/
+
+/-- `>` on naturals is a strict total order in the sense used here -/
+theorem natGt_strictTotal : StrictTotal (fun a b : Nat => decide (a > b)) :=
+  ⟨by intro a; simp, by intro a b c; simp; omega, by intro a b; simp; omega⟩
+
+/-- a two-node chain with an open cursor -/
+def exDb : Db Nat String := ⟨[⟨1, [(9, "i"), (7, "g")]⟩, ⟨0, [(4, "d")]⟩], [(1, .at 0 1 0)]⟩
+
+theorem exDb_inv : NodeInv (fun a b : Nat => decide (a > b)) exDb.nodes := by
+  refine ⟨?_, ?_⟩
+  · intro n hn
+    simp [exDb] at hn
+    rcases hn with rfl | rfl <;> simp [cap]
+  · simp [Desc, exDb, flatten]
+
 end IwModel.Kv
